@@ -506,10 +506,10 @@ func init() {
 	assume := []string{"payload bytes are position- and sequence-dependent tags", "ring constants are the real ones (2048 / 128 KiB / 4 MiB), not scaled down",
 		"the one-byte band at the 4 MiB cap is unconstrained"}
 	register(&Check{ID: "C06", Seq: func(t string, k, n int, r *SeqReport) { runBuf("C06", t, k, n, r) },
-		Scenarios: nil,
-		Rule: "every history W(x) W(y) R W(z) R W R R for x in 0..4096 and y, z from the sets that put head, tail and the 2-byte header on every offset around the ring end; every growth step 2048*2^k..128 KiB, x1.25..4 MiB crossed with 0/1/2 packets present (wrapped); BFS depth 5/6 over {W(0,1,edge sizes), R(0,1,big), limits, Close} from near-wrap / just-grown / limited base states merged on a reflective dump of the buffer; every Read is compared byte-for-byte (with guard bytes) with a FIFO model",
+		Scenarios:   nil,
+		Rule:        "every history W(x) W(y) R W(z) R W R R for x in 0..4096 and y, z from the sets that put head, tail and the 2-byte header on every offset around the ring end; every growth step 2048*2^k..128 KiB, x1.25..4 MiB crossed with 0/1/2 packets present (wrapped); BFS depth 5/6 over {W(0,1,edge sizes), R(0,1,big), limits, Close} from near-wrap / just-grown / limited base states merged on a reflective dump of the buffer; every Read is compared byte-for-byte (with guard bytes) with a FIFO model",
 		Assumptions: assume})
 	register(&Check{ID: "C07", Seq: func(t string, k, n int, r *SeqReport) { runBuf("C07", t, k, n, r) },
-		Rule: "same histories as C06 plus, for each size limit in {1,2,3,2047..2050,4095..4098,131071..131073,4MiB-1..4MiB+1,4MiB+4096,unset}, occupancy brought to limit-r (r in 0..12, two head offsets) and probed with every packet length around the threshold, and BFS over count limits changed at every point; Count() and Size() are compared with the model after every operation and every accept/refuse decision with the exact rule",
+		Rule:        "same histories as C06 plus, for each size limit in {1,2,3,2047..2050,4095..4098,131071..131073,4MiB-1..4MiB+1,4MiB+4096,unset}, occupancy brought to limit-r (r in 0..12, two head offsets) and probed with every packet length around the threshold, and BFS over count limits changed at every point; Count() and Size() are compared with the model after every operation and every accept/refuse decision with the exact rule",
 		Assumptions: assume})
 }
